@@ -1469,7 +1469,10 @@ int __wrap(pthread_spin_lock)(pthread_spinlock_t *lock) {
   int ret;
   (void)_;
   if (myth_should_wrap_pthread()) {
-    ret = myth_spin_lock_body((myth_spinlock_t *)lock);
+    /* myth_spin_lock_body returns the number of failed attempts;
+       pthread_spin_lock returns zero on success */
+    myth_spin_lock_body((myth_spinlock_t *)lock);
+    ret = 0;
   } else {
     ret = real_pthread_spin_lock(lock);
   }
@@ -1483,7 +1486,9 @@ int __wrap(pthread_spin_trylock)(pthread_spinlock_t *lock) {
   int ret;
   (void)_;
   if (myth_should_wrap_pthread()) {
-    ret = myth_spin_trylock_body((myth_spinlock_t *)lock);
+    /* myth_spin_trylock_body returns non-zero iff it acquired the lock;
+       pthread_spin_trylock returns zero on success and EBUSY otherwise */
+    ret = (myth_spin_trylock_body((myth_spinlock_t *)lock) ? 0 : EBUSY);
   } else {
     ret = real_pthread_spin_trylock(lock);
   }
